@@ -136,3 +136,9 @@ def candidates(sc):
     for cfg in ([False, False], [True, False], [False, True]):
         if cfg != sc["cfg"] and sum(cfg) < sum(sc["cfg"]):
             yield dict(copy.deepcopy(sc), cfg=cfg)
+
+
+def trace(sc):
+    wire, _ = hdlc_wires.wire_of(sc["wire"], sc["cfg"][0])
+    yield f"wire[{len(wire)}]={wire[:200].hex()}"
+    yield from reader_rig.trace_feed("hdlc", tuple(sc["cfg"]), wire, sc["cuts"])
